@@ -223,9 +223,27 @@ OnlyLegalMem(r, N, kinds) == \A i \in 1..Len(r.sys) :
 Done(r, k, N) == \E i \in 1..Len(r.sys) : r.sys[i].k = k /\ r.sys[i].mask = N /\ r.sys[i].ret = 0
 NodePolicy(p) == p \in {P_BIND, P_INTERLEAVE, P_WEIGHTED}
 
+(* A request that constrains nothing - DEFAULT ("the nodeset argument is ignored") or a set that covers the   *)
+(* whole topology (replaced by the complete set; what FIRSTTOUCH "should usually" be called with) - can always *)
+(* be enforced: EXDEV / EINVAL do not apply to it.  The library may decline it before the OS only as "not      *)
+(* supported" (ENOSYS), and not even that when hwloc_topology_get_support() announces the policy (and MIGRATE  *)
+(* if asked for; NOCPUBIND "may reduce the support"): then the request reaches the OS and the OS decides.      *)
+(* tp.hooks holds every field of the support structure that is 1.                                              *)
+PolicyBit(p) == CASE p = P_FIRSTTOUCH -> "firsttouch_membind" [] p = P_BIND -> "bind_membind"
+                  [] p = P_INTERLEAVE -> "interleave_membind" [] p = P_WEIGHTED -> "weighted_interleave_membind"
+                  [] p = P_NEXTTOUCH -> "nexttouch_membind" [] OTHER -> "-"
+Announced(tp, c) == /\ PolicyBit(c.pol) \in tp.hooks
+                    /\ HasBit(c.flags, MB_MIGRATE) => "migrate_membind" \in tp.hooks
+                    /\ ~HasBit(c.flags, MB_NOCPUBIND)
+Unconstrained(tp, c) == c.pol = P_DEFAULT \/ MemFix(tp, c) = tp.nc
+WholeServed(tp, c, r) ==
+  (Unconstrained(tp, c) /\ r.sys = <<>>) => /\ ~Announced(tp, c)
+                                            /\ r.ret = -1 => r.err = "ENOSYS"
+
 NativeSetMem(tp, st, c, r, kinds, how, must) ==
   LET N == MemFix(tp, c) IN
   /\ r.ret \in {0, -1}
+  /\ WholeServed(tp, c, r)
   /\ OnlyLegalMem(r, N, kinds)
   /\ r.aff = st.aff
   /\ (~\E i \in 1..Len(r.sys) : r.sys[i].k = "set_mempolicy" /\ r.sys[i].ret = 0) => r.mp = st.mp
